@@ -23,10 +23,17 @@ import (
 	"golang.org/x/tools/go/ast/astutil"
 )
 
+type CallRedirect struct {
+	Recv   string `json:"recv"`   // identifier the method is called on
+	Method string `json:"method"` // method name
+	To     string `json:"to"`     // package-level function taking the receiver as first argument
+}
+
 type Rewrite struct {
-	File         string   `json:"file"`
-	HookFuncs    []string `json:"hook_funcs,omitempty"`
-	RedirectTime bool     `json:"redirect_time,omitempty"`
+	File          string         `json:"file"`
+	HookFuncs     []string       `json:"hook_funcs,omitempty"`
+	RedirectTime  bool           `json:"redirect_time,omitempty"`
+	CallRedirects []CallRedirect `json:"call_redirects,omitempty"`
 }
 
 func applyRewrite(rw Rewrite) ([]byte, error) {
@@ -136,6 +143,30 @@ func applyRewrite(rw Rewrite) ([]byte, error) {
 		} else {
 			fmt.Fprintf(&extra, "\nvar %s func%s\n\nfunc %s%s%s {\n\tif %s != nil {\n\t\treturn %s(%s)\n\t}\n\treturn %s\n}\n",
 				hookName, hookSig, recvTxt, name, sigTxt, hookName, hookName, hookArgs, origCall)
+		}
+	}
+	for _, cr := range rw.CallRedirects {
+		n := 0
+		ast.Inspect(f, func(nd ast.Node) bool {
+			call, ok := nd.(*ast.CallExpr)
+			if !ok {
+				return true
+			}
+			sel, ok := call.Fun.(*ast.SelectorExpr)
+			if !ok || sel.Sel.Name != cr.Method {
+				return true
+			}
+			id, ok := sel.X.(*ast.Ident)
+			if !ok || id.Name != cr.Recv {
+				return true
+			}
+			call.Fun = ast.NewIdent(cr.To)
+			call.Args = append([]ast.Expr{ast.NewIdent(cr.Recv)}, call.Args...)
+			n++
+			return true
+		})
+		if n == 0 {
+			return nil, fmt.Errorf("call %s.%s not found in %s", cr.Recv, cr.Method, rw.File)
 		}
 	}
 	if rw.RedirectTime {
